@@ -910,10 +910,16 @@ def find_replace(
 
         template_replacement = core.format_template(replace, combined_match, **callables)
 
-        indentation = formatting.indentation_level(source[range_start:range_end])
+        # The replacement is inserted at range_start, that is after the indentation of the line on
+        # which the match starts: its first line is already in place, the others follow that line.
+        line_start = source.rfind("\n", 0, range_start) + 1
+        matched_first_line = source[line_start:range_end].split("\n", 1)[0]
+        indentation = formatting.indentation_level(matched_first_line)
 
         template_replacement = textwrap.dedent(template_replacement)
-        template_replacement = textwrap.indent(template_replacement, " " * indentation)
+        first_line, newline, other_lines = template_replacement.partition("\n")
+        other_lines = textwrap.indent(other_lines, " " * indentation)
+        template_replacement = first_line + newline + other_lines
 
         item = [replacement_range, template_replacement]
         if transaction is not None:
